@@ -128,7 +128,10 @@ PlumbMinParams(kind) == IF kind \in {"apply", "tuple"} THEN 1 ELSE 2
 PlumbCfgs(x) ==
   UNION {UNION {{PlumbCfg(kind, n, r, rot, nm) :
              r \in (IF kind = "tuple" THEN {n} ELSE 0..MaxAr), rot \in Rots,
-             nm \in (IF kind = "tuple" THEN {[style |-> "named", v |-> [i \in 1..n |-> "n"]]} ELSE Namings(n, PlumbLetters))}
+             nm \in (IF kind = "tuple" THEN {[style |-> "named", v |-> [i \in 1..n |-> "n"]]}
+                    ELSE Namings(n, PlumbLetters) \cup
+                         \* uncurry: the returned function reuses the name of the outer function's parameter
+                         (IF kind = "uncurry" THEN {[style |-> "same", v |-> [i \in 1..n |-> "n"]]} ELSE {}))}
          : n \in PlumbMinParams(kind)..MaxParams} : kind \in PlumbKinds}
 PlumbOK(c) == c.n >= PlumbMinParams(c.kind)
 
